@@ -28,6 +28,83 @@ ASSUMPTIONS = ["terms are compared by normal form and randomised identity testin
 REL, CREL = "disk/vhd.py", "disk/c_vhd.py"
 
 
+def canonical_segments(segs, total=None):
+    """[(output offset, length, kind, source)] -> maximal runs over the output, gaps (of a pre-zeroed buffer) as zeros; None if
+    pieces overlap or run past the buffer."""
+    out = []
+    pos = 0
+    for at, ln, kind, src in sorted((x for x in segs if x[1] > 0), key=lambda x: x[0]):
+        if at < pos:
+            return None
+        if at > pos:
+            if total is None:
+                return None
+            out.append([pos, at - pos, "zeros", None])
+        out.append([at, ln, kind, src])
+        pos = at + ln
+    if total is not None:
+        if pos > total:
+            return None
+        if pos < total:
+            out.append([pos, total - pos, "zeros", None])
+    merged = []
+    for at, ln, kind, src in out:
+        if merged and merged[-1][2] == kind and (kind == "zeros" or (src is not None and merged[-1][3] is not None and merged[-1][3] + merged[-1][1] == src)):
+            merged[-1][1] += ln
+        else:
+            merged.append([at, ln, kind, src])
+    return [tuple(x) for x in merged]
+
+
+def _dynamic_by_evaluation(chk: Check, ctx, loop, bs, batkey, fh):
+    """DynamicDisk.read_sectors decided on model images: the BAT look-up is interpreted as a table, the loop is evaluated round
+    by round and the assembled result - as a map output range -> zeros | file range, however the pieces are collected (list +
+    join, or a pre-sized buffer filled in place) - is compared with: block b of the request is zeros when bat[b] is None / 0,
+    else the file bytes at (bat[b] + bitmap sectors + sector in block) * 512."""
+    from ..rulelib import simulate_assembly
+    P1, P2 = ("p", ctx.qual, 1), ("p", ctx.qual, 2)
+    rule = ("K-KIND", "dynamic:read-by-evaluation")
+    bad = []
+    n = 0
+    for block_size in (4096, 2 << 20, 512 * 24):
+        spb = block_size // 512
+        bmp = -(-(spb // 8) // 512)
+        tables = [(100, 200, 300, 400), (None, None, None, None), (100, None, 300, None), (None, 100, None, 5000), (0, 7, None, 100 + spb + bmp), (300, 200, 100, None)]
+        reqs = [(0, 4 * spb), (0, spb), (1, spb), (spb - 1, 2), (spb + 1, 2 * spb), (1, 3 * spb + 2), (2 * spb, 2 * spb), (3 * spb + 1, 1), (0, 1)]
+        if spb > 64:
+            tables, reqs = tables[:4], reqs[:6]
+        for tab in tables:
+            def get(_self, block, _t=tab):
+                if not isinstance(block, int) or not 0 <= block < len(_t):
+                    raise S.EvalError("block outside the model table")
+                return _t[block]
+            for sector, count in reqs:
+                res = simulate_assembly(chk, ctx, loop, base={bs: block_size, P1: sector, P2: count}, call_models={batkey: get}, own_handle=fh)
+                if res is None:
+                    return None
+                segs, total = res
+                want = []
+                pos, rem, out = sector, count, 0
+                while rem > 0:
+                    b, o = divmod(pos, spb)
+                    k = min(rem, spb - o)
+                    e = tab[b]
+                    want.append((out, k * 512, "zeros", None) if not e else (out, k * 512, "file", (e + bmp + o) * 512))
+                    out += k * 512
+                    pos += k
+                    rem -= k
+                n += 1
+                got_c, want_c = canonical_segments(segs, total), canonical_segments(want, count * 512)
+                if total is None and got_c is not None and sum(x[1] for x in got_c) != count * 512:
+                    got_c = None
+                if got_c != want_c:
+                    bad.append(f"block size {block_size}, BAT {tab}, read_sectors({sector}, {count}): assembles {got_c if got_c is not None else segs}, specified {want_c}")
+    chk.decide(not bad, *rule, loop, f"{n} model requests (3 block sizes; allocated, sparse, mixed and out-of-order tables; aligned and unaligned "
+               "requests) assemble zeros for unallocated blocks and the file bytes at (entry + bitmap + sector in block) * 512 otherwise, each at its "
+               "place in the result" if not bad else "; ".join(bad[:2]))
+    return not bad
+
+
 def run(chk: Check):
     R = chk.R
     for name in ("footer", "dynamic_header", "parent_locator"):
@@ -193,15 +270,20 @@ def run(chk: Check):
     if not loops:
         raise AnalysisError("ANCHOR-VANISHED DynamicDisk.read_sectors has no while loop")
     loop = loops[0]
+    bs = fld(chk, hdr, CREL, "dynamic_header", "block_size")
+    batkey = f"{bat_cls.key}.get"
+    fh0 = R.self_attr(chk.prog.cls(REL, "DynamicDisk").key, "fh")
+    sim = _dynamic_by_evaluation(chk, ctx, loop, bs, batkey, fh0)
     carried = loop_carried(chk, ctx, loop)
     pname, pinfo = carried_with_entry(chk, carried, ("p", ctx.qual, 1))
     rname, rinfo = carried_with_entry(chk, carried, ("p", ctx.qual, 2))
     if pinfo is None or rinfo is None:
-        chk.undecided("K-SPLIT", "dynamic:loop-counters", loop, "cannot identify position/remaining loop variables")
+        if sim is None:
+            chk.undecided("K-SPLIT", "dynamic:loop-counters", loop, "cannot identify position/remaining loop variables")
         return
+    if sim is True and not appends_in(chk, ctx):
+        return  # the result is not assembled by appending pieces: the evaluation above is the decision
     POS, REM = pinfo["phi"], rinfo["phi"]
-    bs = fld(chk, hdr, CREL, "dynamic_header", "block_size")
-    batkey = f"{bat_cls.key}.get"
     env = {"POS": POS, "REM": REM, "block_size": bs,
            "BAT": lambda x: S.call(batkey, [("self", bat_cls.key), x])}
     env["spb"] = spec_expr("block_size // 512", env)
